@@ -18,6 +18,8 @@
      5 / 117   a vote changes neither the stored ancestors nor a later vote (AliasModel.v)
      6 / 118   the real preempt action with topology-aware preemption on hierarchical capacity:
                a pipelined preemptor's queue is Open and the chain is within capability (EnqueueLaw.v)
+     8 / 103   the real allocate action with a handler ahead of the queue plugin failing its allocate
+               callback; verdict = law 103 (CycleLaws.law_queues) on the final session
      7 / 119   JobEnqueueable votes and the real enqueue action against amounts recomputed from the
                PodGroups and pods (EnqueueLaw.v)
 
@@ -146,9 +148,10 @@ Definition entry (sel : Z) (toks : list Z) : list Z :=
          | Some (eps, _, _, ps) => run_votes (answer_prop eps) ps
          | None => bad_input end
   | 4 => eBool (Nat.eqb (length toks) 8 || Nat.eqb (length toks) 11)
-  | 5 => eBool (Nat.eqb (length toks) 5)
+  | 5 => eBool (Nat.eqb (length toks) 5 || Nat.eqb (length toks) 6)
   | 6 => eBool (Nat.eqb (length toks) 8)
   | 7 => eBool (match toks with _ :: _ :: _ => true | _ => false end)
+  | 8 => eBool (match toks with _ :: _ :: _ => true | _ => false end)
   | 118 => match law_preempt toks with Some b => eBool b | None => bad_input end
   | 119 => match law_enqueue_toks toks with Some b => eBool b | None => bad_input end
   | 116 => match law_reclaim toks with Some b => eBool b | None => bad_input end
